@@ -117,6 +117,10 @@ def run_program(prog, flavours=("sync",), model=None, link_to=False, compare_tre
             else:
                 reason = O.results_equal(cm, ci, times)
             dv = _direct(op, ci, obs)
+            if dv is None and op["op"] == "list" and ci[:2] == ("ok", "list") and \
+               not any(o["op"] == "damage" and o.get("loc", "").startswith("c:index-v5") for o in prog[:idx]):
+                # (a cache whose index was edited by hand is outside C10: its domain is histories of writes and removals)
+                dv = _direct_list(ip, ci)
             if dv is not None and reason is None:
                 reason = "direct oracle: " + dv
                 direct_bad.append(f"step {idx} ({op['op']}): {dv}")
@@ -191,6 +195,27 @@ def _direct(op, ci, obs):
             return "copy returned a byte count different from the length of the destination file"
         if ci[:2] == ("err", "Integrity") and obs.get("dest_exists") and (not obs.get("dest_existed") or obs.get("dest_changed")):
             return "a checked extraction failed verification but left / replaced a file at the destination"
+    return None
+
+def _direct_list(ip, ci):
+    """C10 on one listing, without the model: every listed key is found by a lookup with the same address, size and time,
+    and no key is listed twice (extra lookups on the implementation only; they change nothing)"""
+    seen = set()
+    for kind, item in ci[2]:
+        if kind != "meta":
+            continue
+        k = item["key"]
+        if k in seen:
+            return f"the listing yields key {k} twice"
+        seen.add(k)
+        r = ip.op({"op": "metadata", "fl": "sync", "key": k})
+        c = O.canon_impl({"op": "metadata"}, r)
+        if c[:2] != ("ok", "meta"):
+            continue
+        if c[2] is None:
+            return f"the listing yields key {k} but a lookup of it finds nothing"
+        if any(c[2].get(f) != item.get(f) for f in ("sri", "size", "time")):
+            return f"the listed entry of key {k} differs from what a lookup returns"
     return None
 
 def _observe_pre(op, cache, ext):
